@@ -402,6 +402,17 @@ def run(ctx: Ctx) -> int:
 		stmt_cases.append({'text': text, 'want': tuple(canon_py_stmt(s) for s in tree.body), 'top': c['canon']['k'], 'model': c['canon']})
 	if quick:
 		stmt_cases = stmt_cases[::2]
+	# the same skeletons behind a simple first line and indented by four blanks / by one blank instead of a tab: the block
+	# structure does not depend on the unit of indentation, nor on where the first line break stands (TokLayout's law)
+	first = ast.parse('q0 = 1\n').body[0]
+	layout_cases = []
+	for k, c in enumerate(stmt_cases):
+		if '\t' not in c['text'] or k % (8 if quick else 2):
+			continue
+		unit = '    ' if k % 3 else ' '
+		layout_cases.append({'text': 'q0 = 1\n' + c['text'].replace('\t', unit), 'want': (canon_py_stmt(first),) + tuple(c['want']), 'top': 'layout:' + c['top']})
+	plain_stmt_cases = list(stmt_cases)  # the texts mutants are made from
+	stmt_cases += layout_cases
 	stmt_cases += assign_cases
 	for nops in (1, 2):
 		exprs, _ = srcmodel.load_cases(nops)
@@ -413,7 +424,7 @@ def run(ctx: Ctx) -> int:
 	descs = [json.loads(line) for line in mres.lines('MUT ')]
 	import random
 	rnd = random.Random(ctx.seed)
-	base_texts = [c['text'] for c in cases[::37]][:40] + [c['text'] for c in stmt_cases[::25]][:20]
+	base_texts = [c['text'] for c in cases[::37]][:40] + [c['text'] for c in plain_stmt_cases[::25]][:20]
 	mutants = []
 	for d in rnd.sample(descs, 600 if quick else 2400):
 		src = base_texts[(d['program'] * 7 + d['pos']) % len(base_texts)]
